@@ -162,6 +162,20 @@ def run(prog, ctx):
             v_ = r_.ast.value.elts[0] if isinstance(r_.ast.value, ast.Tuple) and r_.ast.value.elts else r_.ast.value
             if isinstance(v_, (ast.List, ast.Tuple)) and any(e in ctors for e in v_.elts):
                 elems += list(v_.elts)
+        # an element may be a local bound (once) to one of the constructor calls
+        def ctor_of(e):
+            if isinstance(e, ast.Name):
+                bs_ = [b for b in tm.env.bindings.get(e.id, []) if b.kind == "assign"]
+                if len(bs_) == 1 and bs_[0].value in ctors:
+                    return bs_[0].value
+            return e
+        if not elems:
+            for st_ in walk_local(rf.node):
+                if isinstance(st_, (ast.Assign, ast.Return)) and st_.value is not None:
+                    for cand in [st_.value] + (list(st_.value.elts[:1]) if isinstance(st_.value, ast.Tuple) else []):
+                        if isinstance(cand, (ast.List, ast.Tuple)) and cand.elts and all(ctor_of(e) in ctors for e in cand.elts):
+                            elems = list(cand.elts)
+        elems = [ctor_of(e) for e in elems]
         okr = len(elems) == 2 and all(e in ctors for e in elems) and elems[0] is not elems[1]
         ctx.check(okr, "C06.D1", R.key_of(rf, "returns-both"), rf.loc(), "exactly the two children are returned",
                   "refine() does not return exactly its two children")
@@ -282,6 +296,27 @@ def run(prog, ctx):
             guards = [(g, gn) for (g, gn) in R.dominating_guards(uc, bn, tmu) if gn.kind == "test"]
             if any(g[0] == "cmp" and g[1] == "Lt" and g[3] == ("n", acc) and quantity(g[2], gn) == cl_value[1] for (g, gn) in guards):
                 okmin = True
+        # builtin forms of the running minimum:  acc = min(acc, level)  in the loop;  acc = min([0] + [level of every object])  after it
+        objs_t = ("call", ("a", ("n", cont_par), "get_objects"), (), ())
+        for b in inits:
+            bn = cu_.node_of(b.stmt)
+            v = tmu.term(b.value)
+            if v[0] == "call" and v[1] == ("n", "min") and len(v[2]) == 2 and ("n", acc) in v[2]:
+                other = [x for x in v[2] if x != ("n", acc)]
+                if other and cl_value is not None and quantity(other[0], bn) == cl_value[1] and bn.loops:
+                    okmin = True
+            if v[0] == "call" and v[1] == ("n", "min") and len(v[2]) == 1:
+                a0 = R.resolve_locals(uc, v[2][0], bn, tmu)
+                parts = a0[2] if a0[0] == "op" and a0[1] == "Add" else (a0,)
+                has_zero = any(p_ in (("list", ("c", "0")), ("tuple", ("c", "0"))) for p_ in parts) or \
+                    any(k_ == "default" and kv == ("c", "0") for (k_, kv) in (v[3] if len(v) > 3 else ()))
+                comps = [p_ for p_ in parts if p_[0] == "comp"]
+                if has_zero and len(comps) == 1 and len(comps[0][3]) == 1 and not comps[0][3][0][2]:
+                    it_ = R.resolve_locals(uc, comps[0][3][0][1], bn, tmu)
+                    body_ = comps[0][2]
+                    if it_ == objs_t and body_ == ("a", ("bv", "$0"), "coarsening_level"):
+                        okmin = True
+                        zero_init = True
         okret = okret and zero_init and okmin
     ctx.check(okret, "C06.D4", R.key_of(uc, "returns-deficit"), uc.loc(),
               "returns the negated minimum coarsening level (0 if none is negative)",
@@ -476,6 +511,14 @@ def run(prog, ctx):
     for loop in [l for l in walk_local(mb.node) if isinstance(l, ast.For)]:
         if R.self_attr(loop.iter, "self") == "refinementObjects" and not any(isinstance(n, (ast.Break, ast.Return)) for n in ast.walk(loop)):
             okm = True
+    if not okm:
+        # builtin form: max(...) over an unfiltered comprehension / generator of the benefits of all objects
+        for call in [x for x in walk_local(mb.node) if isinstance(x, ast.Call) and isinstance(x.func, ast.Name) and x.func.id == "max"]:
+            for comp in [x for x in ast.walk(call) if isinstance(x, (ast.GeneratorExp, ast.ListComp))]:
+                g = comp.generators[0]
+                if len(comp.generators) == 1 and not g.ifs and R.self_attr(g.iter, "self") == "refinementObjects" \
+                        and isinstance(comp.elt, ast.Attribute) and comp.elt.attr == "benefit":
+                    okm = True
     ctx.check(okm, "C06.D5", R.key_of(mb, "max-over-all"), mb.loc(), "the largest benefit is taken over all objects",
               "get_max_benefit does not scan all refinement objects")
     pp2 = prog.func(RC + ".refinement_postprocessing")
@@ -592,11 +635,11 @@ def _check_container_selection(prog, ctx, gno):
         if not rets:
             problems.append("nothing is returned from the scan")
         for r in rets:
-            guards = [g for (g, gn) in R.dominating_guards(gno, r, tm) if gn.kind == "test" and c.in_loop(gn, loop)]
+            guards = [R.resolve_locals(gno, g, gn, tm) for (g, gn) in R.dominating_guards(gno, r, tm) if gn.kind == "test" and c.in_loop(gn, loop)]
             ben = ("a", ("s", ("a", ("n", "self"), "refinementObjects"), ("n", i)), "benefit")
             if guards != [("cmp", "LtE", ("n", tolp), ben)]:
                 problems.append("an object is selected under %s, required: benefit >= tolerance" % [show(g) for g in guards])
-            t = tm.term(r.ast.value)
+            t = R.resolve_locals(gno, tm.term(r.ast.value), r, tm)
             if not (t[0] == "tuple" and t[1] == ("c", "True") and t[2] == ("n", i) and t[3] == ("s", ("a", ("n", "self"), "refinementObjects"), ("n", i))):
                 problems.append("the selected position and object are not (i, refinementObjects[i])")
             adv = [s for s in R.self_stores(gno, "searchPosition") if s.kind == "plain" and
